@@ -203,11 +203,11 @@ func checkLoneScan(p *Program, r *Result, fn *ssa.Function) {
 			for _, a := range facts {
 				s := short(a.String())
 				switch {
-				case s == `Field(Elem(P1, (RangeIdx() + 1)).Type) == "scrypt"`:
+				case s == `Field(Elem(P1, (RangeIdx#1 + 1)).Type) == "scrypt"`:
 					typ = true
 				case s == "len(P1) != 1":
 					ln = true
-				case s == "(RangeIdx() + 1) <= (len(P1) + -1)" || s == "(RangeIdx() + 1) < len(P1)":
+				case s == "(RangeIdx#1 + 1) <= (len(P1) + -1)" || s == "(RangeIdx#1 + 1) < len(P1)":
 				default:
 					rest = append(rest, s)
 				}
